@@ -1099,3 +1099,80 @@ func runX14(p *an.Prog, r *an.Result) {
 	}
 	r.Floor("conversions to a run-time type", 2)
 }
+
+// ---------------------------------------------------------------------------
+// P12
+
+func init() {
+	register("P12", "struct fields of caller data are read reflectively without the two panics reflect reserves for them: Interface() on a field value only where the field is known exported (IsExported / CanInterface / PkgPath), and no FieldByName / FieldByIndex / FieldByNameFunc on a reflect.Value, which panic when the path runs through a nil embedded pointer (FieldByIndexErr reports it instead)", runP12)
+}
+
+func runP12(p *an.Prog, r *an.Result) {
+	roles := GetRoles(p)
+	fieldGetters := map[string]bool{
+		"(reflect.Value).Field": true, "(reflect.Value).FieldByName": true, "(reflect.Value).FieldByIndex": true,
+		"(reflect.Value).FieldByIndexErr": true, "(reflect.Value).FieldByNameFunc": true,
+	}
+	for _, fn := range p.Funcs {
+		if isMainPkg(fn) || p9OutOfScope(p, fn) != "" {
+			continue
+		}
+		name := roles.Label(fn)
+		an.EachInstr(fn, func(in ssa.Instruction) {
+			c, ok := in.(*ssa.Call)
+			if !ok {
+				return
+			}
+			cn := an.CallName(&c.Call)
+			switch cn {
+			case "(reflect.Value).FieldByName", "(reflect.Value).FieldByIndex", "(reflect.Value).FieldByNameFunc":
+				r.Counts["reflective field reads"]++
+				r.Bad(name, strings.TrimPrefix(cn, "(reflect.Value).")+" on a value", c.Pos(), fmt.Sprintf("%s panics (\"indirection through nil pointer to embedded struct\") when the field is promoted through an embedded pointer that is nil; a binding of such a struct type would panic instead of yielding nil - use FieldByIndexErr", cn))
+				return
+			case "(reflect.Value).Interface":
+			default:
+				return
+			}
+			// is the receiver a field value?
+			var getter *ssa.Call
+			for _, o := range an.Origins(c.Call.Args[0], an.StepValue) {
+				oc, ok := o.(*ssa.Call)
+				if ex, isEx := o.(*ssa.Extract); isEx {
+					oc, ok = ex.Tuple.(*ssa.Call)
+				}
+				if ok && fieldGetters[an.CallName(&oc.Call)] {
+					getter = oc
+				}
+			}
+			if getter == nil {
+				return
+			}
+			r.Counts["reflective field reads"]++
+			construct := "Interface() of a struct field value"
+			guarded := an.AllPathsGuarded(c.Block(), func(cond ssa.Value, taken bool) bool {
+				cc := an.CallOf(cond)
+				if cc != nil && taken {
+					switch an.CallName(cc) {
+					case "(reflect.StructField).IsExported", "(reflect.Value).CanInterface":
+						return true
+					}
+				}
+				// field.PkgPath == ""
+				if b, ok := cond.(*ssa.BinOp); ok && (b.Op == token.EQL && taken || b.Op == token.NEQ && !taken) {
+					for _, pair := range [][2]ssa.Value{{b.X, b.Y}, {b.Y, b.X}} {
+						if s, isC := an.ConstString(pair[1]); isC && s == "" && strings.HasSuffix(describe(p, pair[0]), ".PkgPath") {
+							return true
+						}
+					}
+				}
+				return false
+			})
+			if guarded {
+				r.OK(name, construct, c.Pos(), "every path established that the field is exported (IsExported / CanInterface / PkgPath == \"\")")
+			} else {
+				r.Bad(name, construct+" without an exportedness test", c.Pos(), fmt.Sprintf("%s reads a struct field value with Interface(); for an unexported field reflect panics (\"cannot return value obtained from unexported field\"), so a binding whose struct type has such a field panics when a template names it", an.FuncName(fn)))
+			}
+		})
+	}
+	r.Floor("reflective field reads", 1)
+}
